@@ -88,8 +88,10 @@ def derivative(expr: e.Expr, t_string: str):
             obj = obj.tensors
             assert len(obj) == 1
             obj = obj[0]
+            # the object holds the tensor including its exponent -> only
+            # insert the tensor itself for x
             symmetrized_deriv_contrib = (
-                symmetrized_deriv_contrib.subs(x, obj)
+                symmetrized_deriv_contrib.subs(x, obj.base)
             )
             # - sort the derivative according to the space of the minimal
             #   tensor indices
